@@ -35,6 +35,10 @@ func (e *Engine) replay(vc *VC, ob *Obligation, o SolveOpts, outDir string) *Rep
 	if a := ct.Witness[suffix+"|args"]; a != "" {
 		args = strings.Fields(a)
 	}
+	if pre, ok := ct.Witness[suffix+"|preload"]; ok {
+		// a preloaded file: written as pre.rb and listed in .ti-loader.json
+		o.preload = pre
+	}
 	if nstr, ok := ct.Witness[suffix+"|expect-varies"]; ok {
 		// nondeterminism: the same input must give the same output; run it several times
 		n := 8
@@ -94,6 +98,12 @@ func (e *Engine) runWitness(src string, o SolveOpts, args []string) (string, str
 	os.MkdirAll(work, 0o755)
 	exec.Command("cp", "-r", filepath.Join(e.repo, ".ti-config"), work).Run()
 	os.WriteFile(filepath.Join(work, "in.rb"), []byte(src), 0o644)
+	if o.preload != "" {
+		os.WriteFile(filepath.Join(work, "pre.rb"), []byte(o.preload), 0o644)
+		os.WriteFile(filepath.Join(work, ".ti-loader.json"), []byte(`{"preload": ["pre.rb"]}`), 0o644)
+	} else {
+		os.Remove(filepath.Join(work, ".ti-loader.json"))
+	}
 	cmd := exec.Command(bin, append([]string{"in.rb"}, args...)...)
 	cmd.Dir = work
 	done := make(chan struct{})
